@@ -469,11 +469,37 @@ def run(R):
         va = np.array(vs, dtype=rng.choice(["<f4", "<f8"]))
         ta = np.array(ts, dtype="<u4")
 
+        # the caller's arrays are snapshotted, offered read-only in one case out of three, and used for a
+        # SECOND transform afterwards: the function must neither need to write to them nor change them
+        va0, ta0, mat0 = va.copy(), ta.copy(), mat.copy()
+        read_only = rng.random() < 0.34
+        if read_only:
+            va.flags.writeable = False
+            ta.flags.writeable = False
+        seq = {}
+
         def go():
             v2, t2 = mesh.affine_transform_mesh(va, ta, mat)
             assert all(float(x).is_integer() for x in v2.ravel())
-            return [[[int(x) for x in row] for row in v2.tolist()], t2.tolist()]
+            first = [[[int(x) for x in row] for row in v2.tolist()], t2.tolist()]
+            seq["args_unchanged"] = bool(np.array_equal(va, va0) and np.array_equal(ta, ta0)
+                                         and np.array_equal(mat, mat0))
+            v3, t3 = mesh.affine_transform_mesh(va, ta, mat)
+            seq["second_equal"] = [[[int(x) for x in row] for row in v3.tolist()], t3.tolist()] == first
+            seq["first_still"] = [[[int(x) for x in row] for row in v2.tolist()], t2.tolist()] == first
+            return first
         impl = outcome_of(go)
+        R.count("affine-int:args-" + ("read-only" if read_only else "writable"))
+        if impl[0] == "ok":
+            seq_case = {"matrix": M, "rows": rows, "read_only_arrays": read_only, "det": det3(M)}
+            if not seq["args_unchanged"]:
+                R.violation("affine_transform_mesh modified the caller's vertex / triangle / matrix arrays",
+                            seq_case, {"triangles_before": ta0.tolist()[:3], "triangles_after": ta.tolist()[:3]})
+            elif not seq["second_equal"]:
+                R.violation("a second transform of the same arrays gives a different mesh", seq_case, {})
+            elif not seq["first_still"]:
+                R.violation("the mesh returned first changed when the same arrays were transformed again",
+                            seq_case, {})
         m_out, m_det, m_vol0, m_vol1, m_nm = rep
         mod = model_outcome(m_out)
         d = det3(M)
@@ -939,8 +965,89 @@ def run(R):
             if impl[0] != "ok" or got != want:
                 R.violation("fragment-link files do not list exactly the given fragments", case,
                             {"impl": impl, "files": {k: v.decode() for k, v in files.items()}})
+        if ex and impl[0] == "ok":
+            # a link file existed for one of the labels: a run that reports success must have replaced it
+            for e in ex:
+                lab = os.path.basename(e).split(":")[0]
+                want_frags = [row[1:] for row in rows if row and str(int(row[0])) == lab][-1:]
+                try:
+                    got_frags = [json.loads(open(os.path.join(dest, e)).read())["fragments"]]
+                except Exception:  # noqa: BLE001
+                    got_frags = ["<stale or unreadable>"]
+                if got_frags != want_frags:
+                    R.violation("link-mesh-fragments reported success but an existing link file keeps content "
+                                "that does not list the fragments given", case,
+                                {"file": e, "content": open(os.path.join(dest, e)).read()[:80]})
         for k, v in files.items():
             read_reqs.append((k, v))
+
+    # second run on a dataset that is already linked, with a changed fragment list for one label:
+    # either the run fails, or the link files list the new fragments -- never success with stale files
+    seq_l = []
+    for i in range(24 if quick else 150):
+        labels = rng.sample(range(1, 5000), rng.choice([1, 2, 3]))
+        rows1 = [[str(lab)] + [f"f{lab}_{q}" for q in range(rng.randrange(0, 4))] for lab in labels]
+        rows2 = [list(r) for r in rows1]
+        k = i % len(rows2)
+        rows2[k] = [rows2[k][0]] + rng.choice([["new_a"], ["new_a", "new_b"], rows2[k][1:] + ["added"], []])
+        if rows2[k] == rows1[k]:
+            rows2[k].append("added")
+        if i % 3 == 0:
+            rows2.insert(rng.randrange(len(rows2) + 1), [str(rng.randrange(6000, 7000)), "fresh"])
+        seq_l.append((rows1, rows2, i % 2 == 0, rng.choice(["mesh", "frags/sub"])))
+    for i, (rows1, rows2, nc, mk) in enumerate(seq_l):
+        dest = new_dataset(f"lk2_{i}", mk)
+        os.makedirs(os.path.join(dest, mk))
+        outs = []
+        snaps = []
+        for step, rows in enumerate((rows1, rows2)):
+            table = os.path.join(R.tmp, f"t2_{i}_{step}.csv")
+            with open(table, "w", newline="") as f:
+                csv.writer(f).writerows(rows)
+            argv = ["link-mesh-fragments", table, dest] + (["--no-colon-suffix"] if nc else [])
+            if i < (2 if quick else 6):
+                r = subprocess.run([PY, "-m", "neuroglancer_scripts.scripts.link_mesh_fragments"] + argv[1:],
+                                   stdout=subprocess.PIPE, stderr=subprocess.PIPE, timeout=120)
+                o = ["ok", []] if r.returncode == 0 else ["failed"]
+            else:
+                o = outcome_of(lambda: link_mesh_fragments.main(list(argv)))
+                o = ["ok", []] if o == ["ok", 0] else o
+            outs.append(o)
+            snap = {}
+            for root, _d, fns in os.walk(os.path.join(dest, mk)):
+                for fn in fns:
+                    snap[os.path.relpath(os.path.join(root, fn), dest)] = open(os.path.join(root, fn), "rb").read()
+            snaps.append(snap)
+        case = {"sequence": "link-mesh-fragments twice", "first_table": rows1, "second_table": rows2,
+                "no_colon": nc, "mesh": mk}
+        R.case(case, nontrivial=True)
+        R.count(f"links-twice:second={outs[1][0] if outs[1][0] != 'Crash' else outs[1][1]}")
+        if outs[0][0] != "ok":
+            R.violation("first link-mesh-fragments run on a fresh dataset failed", case, {"impl": outs[0]})
+            continue
+        # the code as it is: the second run stops with the accessor's error at the first label already linked
+        rep2 = R.model.call("links", [mk.encode(), nc, [n.encode() for n in sorted(snaps[0])],
+                                      [[c.encode() for c in row] for row in rows2]])
+        m_files2 = {os.path.normpath(n.decode("latin1")): c for n, c in rep2[0]}
+        m_res2 = model_outcome(rep2[1])
+        new_files = {k2: v for k2, v in snaps[1].items() if k2 not in snaps[0]}
+        if (outs[1][0] == "ok") != (m_res2[0] == "ok") or m_files2 != new_files or \
+                any(snaps[1][k2] != v for k2, v in snaps[0].items()):
+            R.disagree("second link-mesh-fragments run vs model (existing link files)", case,
+                       [outs[1], sorted(new_files)], [m_res2, sorted(m_files2)])
+        if outs[1][0] == "ok":
+            for row in rows2:
+                name = os.path.normpath(f"{mk}/{int(row[0])}" + ("" if nc else ":0"))
+                try:
+                    got = json.loads(snaps[1][name].decode())["fragments"]
+                except Exception:  # noqa: BLE001
+                    got = None
+                if got != row[1:]:
+                    R.violation("second link-mesh-fragments run reported success but a link file does not list "
+                                "the fragments given for its label", case,
+                                {"file": name, "content": snaps[1].get(name, b"<absent>").decode()[:80],
+                                 "given": row[1:]})
+                    break
     replies = R.model.batch([("links_read", v) for _k, v in read_reqs])
     for (k, v), rep in zip(read_reqs, replies):
         want = json.loads(v.decode())["fragments"]
